@@ -131,7 +131,7 @@ def project(draw, nmin=4, nmax=14, sels=None):
     return {"selection": sel, "codemods": cms, "include": include, "files": files}
 
 
-def materialise(case, root: Path, order=None, mark=True):
+def materialise(case, root: Path, order=None, mark=True, case_twins=False):
     rendered = []
     for k, fc in enumerate(case["files"]):
         rd = dict(progspace.render(fc, "code.py"))
@@ -139,7 +139,13 @@ def materialise(case, root: Path, order=None, mark=True):
             rd["data"] = rd["data"] + ((DELAY_MARK % k) + "\n").encode()
         rendered.append((fc, rd))
     # creation order: build_project writes in dict order; reorder by writing into a staging dict
-    proj, rels, res_argv = engine.build_project(root, case["codemods"], rendered)
+    extra = None
+    if case_twins and not any(rd.get("results") for _, rd in rendered):
+        # paths that differ only in letter case (a case-sensitive file system keeps both): any ordering that folds case
+        # leaves their relative order to set iteration, i.e. to the hash seed
+        d0, d1 = rendered[0][1]["data"], rendered[-1][1]["data"]
+        extra = {"pkg/Settings.py": d0, "pkg/settings.py": d1, "Tools/run.py": d1, "tools/run.py": d0, "pkg/SETTINGS.py": d0}
+    proj, rels, res_argv = engine.build_project(root, case["codemods"], rendered, extra)
     if order:
         # re-create the files in the requested order (directory enumeration order on most file systems follows creation)
         data = {rel: (proj / rel).read_bytes() for rel in rels}
@@ -295,7 +301,7 @@ def eval_hashseed(case, stats=None):
     for hs in case["seeds"]:
         with runner.scratch("c11h") as r0:
             root = Path(r0)
-            proj, rels, res_argv = materialise(p, root)
+            proj, rels, res_argv = materialise(p, root, case_twins=True)
             out = root / "out.codetf"
             argv = [str(proj), "--output", str(out)] + (["--codemod-include", p["include"]] if not case.get("default_set") else []) + res_argv
             env = {k: v for k, v in os.environ.items()}
